@@ -53,9 +53,18 @@ OUTBUF = [None]
 _QUIDS = {}
 def _uid(obj):
     """small stable number of an object (the object is kept, so that a number is never reused for another object)"""
+    # the number is written on the object itself, so that the adapter keeps nothing alive (a queue object holds its sources, a stack entry its screen); objects
+    # that take no attribute are kept instead
+    n = getattr(obj, "_verif_uid", None)
+    if n is not None and _QUIDS.get(("n", n)) == id(obj): return n
     k = id(obj)
-    if k not in _QUIDS: _QUIDS[k] = (len(_QUIDS), obj)
-    return _QUIDS[k][0]
+    if k in _QUIDS and _QUIDS[k][1] is obj: return _QUIDS[k][0]
+    n = _QUIDS["count"] = _QUIDS.get("count", 0) + 1
+    try:
+        obj._verif_uid = n; _QUIDS[("n", n)] = id(obj)
+    except Exception:
+        _QUIDS[k] = (n, obj)
+    return n
 def _ctx():
     """context of an observation: nesting depth, identity of the active level, the screen stack, stdout position"""
     ctx = {}
@@ -144,6 +153,14 @@ RET = {"PROCESSED": InputState.PROCESSED, "REDRAW": InputState.PROCESSED_AND_RED
 
 from simpleline.event_loop.signals import InputReadySignal, InputReceivedSignal, RenderScreenSignal, CloseScreenSignal
 FRAMEWORK_CLASSES = {"InputReady": InputReadySignal, "InputReceived": InputReceivedSignal, "Render": RenderScreenSignal, "Close": CloseScreenSignal, "Exception": ExceptionSignal}
+
+class LazyScreens(dict):
+    """screen objects created when they are first needed (and forgotten by the application when they were closed: see Scr.closed)"""
+    def __init__(self, W): dict.__init__(self); self.W = W
+    def __missing__(self, k):
+        spec = next(s_ for s_ in self.W.case["screens"] if s_["id"] == k)
+        self[k] = make_screen(self.W, spec); return self[k]
+
 
 class World:
     def __init__(self, case):
@@ -258,6 +275,8 @@ def make_screen(W, spec):
             return UIScreen.prompt(s, args)
         def input(s, args, key):
             if W.silent: return key
+            if W.case.get("lazy_screens"):
+                import gc; gc.collect()
             LOG.append(("cb", s.sid, "input", args, key)); r = s._script("input")
             if r is None: return key
             if r == "NONE": return None
@@ -265,6 +284,7 @@ def make_screen(W, spec):
         def closed(s):
             if W.silent: return None
             LOG.append(("cb", s.sid, "closed")); s._script("closed"); xlog(("cb<", s.sid, "closed"))
+            if W.case.get("lazy_screens") and s.sid != 0: W.screens.pop(s.sid, None)       # the application forgets a closed dialog
     return Scr()
 
 def prelife(W):
@@ -325,10 +345,15 @@ def run_real(case, loopkind="main"):
                 return super().process_signals(return_after)
         App.initialize(event_loop=BudgetMainLoop())
     App.get_configuration().width = case.get("width", 80)
+    if case.get("width", 80) == 80 and len(case.get("stdin") or []) % 2 == 0:
+        # the default width restored through the public clear_width() after another width had been configured
+        App.get_configuration().width = 33; App.get_configuration().clear_width()
     App.get_configuration().should_run_with_empty_stack = bool(case.get("run_empty"))
     W = W0 or World(case); loop = App.get_event_loop()
     if W0 is None:
-        for spec in case["screens"]: W.screens[spec["id"]] = make_screen(W, spec)
+        if case.get("lazy_screens"): W.screens = LazyScreens(W)
+        else:
+            for spec in case["screens"]: W.screens[spec["id"]] = make_screen(W, spec)
     if case.get("quit_screen") is not None: App.get_scheduler().quit_screen = W.screens[case["quit_screen"]]
     def mkh(h):
         def f(sig, data):
@@ -351,6 +376,14 @@ def run_real(case, loopkind="main"):
         f = funcs.setdefault(h["hid"], mkh(h))
         if h["hid"] % 2 == 1 and hid_count[h["hid"]] == 1:
             f = _Receiver(f).on_signal          # every other handler is a bound method of an object the application does not keep
+        elif h["hid"] % 4 == 2 and hid_count[h["hid"]] == 1:
+            import functools
+            f = functools.partial(f)            # a partial object (a callable without __name__)
+        elif h["hid"] % 4 == 0 and h["hid"] > 0 and hid_count[h["hid"]] == 1:
+            class _Call:
+                def __init__(self, g): self.g = g
+                def __call__(self, sig, data): return self.g(sig, data)
+            f = _Call(f)                        # a callable object
         if W.screens and h["hid"] % 3 == 2: next(iter(W.screens.values())).connect(W.cls(h["cls"]), f, h.get("data"))       # SignalHandler.connect of a screen
         else: loop.register_signal_handler(W.cls(h["cls"]), f, h.get("data"))
     import gc; gc.collect()
